@@ -36,7 +36,7 @@ ASSUMPTIONS = [
     "values derived from the packet's own timestamp (e.g. _next_setpoint) are part of the input, so each case keeps one timestamp",
     "ratio keys = the keys fed from hex_to_percent/parse_valve_demand (committed list below); temperature keys likewise",
 ]
-REQUIRED = {"gateway.pairs": 50, "gateway.messages_held": 100, "sibling.groups": 200, "decoded": 1000, "order.compared": 1000, "index.checked": 300, "array.compared": 100, "range.checked": 200}
+REQUIRED = {"gateway.pairs": 50, "gateway.messages_held": 100, "sibling.groups": 200, "decoded": 1000, "order.compared": 1000, "index.checked": 300, "array.compared": 100, "stamp.compared": 100, "range.checked": 200}
 
 DTM = "2024-03-01T12:00:00.000000"
 IDX_KEYS = ("zone_idx", "domain_id", "dhw_idx", "ufh_idx", "ufx_idx", "hvac_id", "other_idx")
@@ -51,14 +51,16 @@ TEMP_KEYS = {  # every key the parsers feed from hex_to_temp as a temperature
     "setpoint_next", "differential", "exhaust_temp", "supply_temp", "indoor_temp", "outdoor_temp",
     "dewpoint_temp",
 }
+# element length, sender classes: the classes the library's own table names, and other legal senders of such arrays
+# (a 23: programmer is a controller too; 21: is the Itho UFH controller)
 ARRAY_CODES = {
-    "0009": (3, (1, 12, 22)),
-    "000A": (6, (1, 12, 22)),
-    "2309": (3, (1, 12, 22)),
-    "30C9": (3, (1, 12, 22)),
+    "0009": (3, (1, 12, 22, 23)),
+    "000A": (6, (1, 12, 22, 23)),
+    "2309": (3, (1, 12, 22, 23)),
+    "30C9": (3, (1, 12, 22, 23)),
     "2249": (7, (23,)),
-    "22C9": (6, (2,)),
-    "3150": (2, (2,)),
+    "22C9": (6, (2, 21)),
+    "3150": (2, (2, 21)),
 }
 
 
@@ -494,9 +496,61 @@ def part_gateway(ctx) -> None:
     vloop.run(go)
 
 
+def part_stamp_forms(ctx) -> None:
+    """'No dependence on clock or host': a line stamped with a timezone-aware time and the same line stamped with
+    the equivalent local wall-clock time are the same reception - same payload (1F09's next sync, 2249's next
+    setpoint and 313E's zulu time are derived from the stamp), same packet time - whichever side of a daylight-
+    saving switch the stamp lies on and whatever zone the host is in (the zone is set per shard, C04's list)."""
+    import os
+    import time
+    from datetime import datetime as dt, timedelta as td, timezone as tz
+
+    from .c04 import TZS
+
+    rng = ctx.rng
+    tz_name, tz_rule = TZS[(ctx.shard + 1) % len(TZS)]
+    old = os.environ.get("TZ")
+    os.environ["TZ"] = tz_rule
+    time.tzset()
+    try:
+        frames = gen.corpus_frames()
+        wanted = [f for _, f in frames if f.split()[-3] in ("1F09", "2249", "313E", "313F", "30C9", "0418")]
+        pool = wanted[:: max(1, len(wanted) // 40)] + [frames[rng.randrange(len(frames))][1] for _ in range(20 if ctx.quick else 400)]
+        for line in pool:
+            for month, day, hour in ((1, 15, 13), (7, 15, 13), (3, 31, 0), (10, 27, 1), (12, 31, 23)):
+                naive = dt(2024, month, day, hour, 30, 7, 250000)
+                epoch = time.mktime(naive.timetuple()) + 0.25
+                forms = {
+                    "utc": dt.fromtimestamp(epoch, tz=tz.utc).isoformat(timespec="microseconds"),
+                    "offset": dt.fromtimestamp(epoch, tz=tz(td(hours=-8))).isoformat(timespec="microseconds"),
+                }
+                base = try_decode(ctx, naive.isoformat(timespec="microseconds"), line)
+                if base is None:
+                    continue
+                for form, stamp in forms.items():
+                    m = try_decode(ctx, stamp, line)
+                    ctx.ev()
+                    ctx.count("stamp.compared")
+                    ctx.seen(f"stamp|{tz_name}|{month}|{form}|{line.split()[-3]}")
+                    if m is None or m._pkt.dtm != base._pkt.dtm or canon(m.payload) != canon(base.payload):
+                        ctx.violate(
+                            f"C05|stamp-form|{'payload' if m is not None and canon(m.payload) != canon(base.payload) else 'packet-time'}-differs",
+                            "a line stamped with a timezone-aware time decodes differently from the same line stamped with the equivalent local time",
+                            {"line": line, "tz": tz_name, "local_stamp": naive.isoformat(), "aware_stamp": stamp,
+                             "held_as": None if m is None else m._pkt.dtm.isoformat(), "payload_local": base.payload, "payload_aware": None if m is None else m.payload},
+                        )
+    finally:
+        if old is None:
+            os.environ.pop("TZ", None)
+        else:
+            os.environ["TZ"] = old
+        time.tzset()
+
+
 def run(ctx) -> None:
     part_siblings(ctx)  # first: while the process-wide caches are still cold
     part_gateway(ctx)
     part_lines(ctx)
     part_arrays(ctx)
     part_byte_sweep(ctx)
+    part_stamp_forms(ctx)
